@@ -12,7 +12,8 @@
 From Soy Require Import Model.Bytes Model.Num Model.Values Model.Outcome Model.Ast
   Model.Escape Model.Interp Spec.Expr Spec.Cmd Spec.CmdIndep Proofs.ScopeRel Proofs.ScopeProofs Proofs.ScopeSpecProofs
   Proofs.ScopeIndepProofs Proofs.ScopeIndepBridge
-  Model.Token Model.Parser Model.Compile Spec.CallNames Proofs.CompilePermProofs Proofs.ScopeNames Proofs.ScopeRegistry.
+  Model.Token Model.Parser Model.Compile Spec.CallNames Proofs.CompilePermProofs Proofs.ScopeNames Proofs.ScopeRegistry
+  Model.RawText Spec.Text Spec.CmdText Proofs.ScopeText.
 Open Scope N_scope.
 
 (* ------------------------------------------------------------------ *)
@@ -230,6 +231,63 @@ Proof. exact ScopeRegistry.call_runs_declared_template. Qed.
 Print Assumptions call_runs_declared_template.
 
 (* ------------------------------------------------------------------ *)
+(* the commands that only produce text, at the token level (Model/Parser.v):
+   special-character commands, {literal}, and plain template text.  In the tree
+   all three are raw-text nodes; these theorems say WHICH bytes the node holds,
+   and raw_text_written_exactly that the walker writes those bytes as they are
+   (exec_impl_spec already says the same of the Spec: exec_body of NRawText is
+   [semit text]). *)
+
+(* the lexer's keyword table and the parser's character table together realise the language's list
+   {sp} {nil} {\n} {\r} {\t} {lb} {rb}, and nothing more *)
+Theorem special_char_tables :
+  Forall (fun kc => exists ty, assoc_s (fst kc) Tables.builtin_idents = Some ty /\
+                               assoc ty Tables.parser_special_chars = Some (snd kc)) special_char_commands /\
+  length Tables.parser_special_chars = length special_char_commands.
+Proof. exact ScopeText.special_char_tables. Qed.
+Print Assumptions special_char_tables.
+
+(* "{" already read; the command token and "}" follow: one raw-text node holding the table's characters *)
+Theorem special_char_tag : forall inlen lexq unq pexpr efuel pe w lf s ty p v prd vrd rest txt,
+  assoc ty Tables.parser_special_chars = Some txt ->
+  reads s [tk ty p v; tk Tables.pit_RightDelim prd vrd] rest ->
+  exists s', begin_tag inlen lexq unq pexpr efuel pe w lf s = Parser.COk (Some (NRawText p txt)) s' /\
+             reads s' [] rest /\ same_names s s'.
+Proof. exact ScopeText.special_char_tag. Qed.
+Print Assumptions special_char_tag.
+
+(* {literal}body{/literal}: a raw-text node holding exactly the body -- no line joining, no comments, no tags *)
+Theorem literal_tag : forall inlen lexq unq pexpr efuel pe w lf s p v p1 v1 pb body p2 v2 p3 v3 p4 v4 rest,
+  reads s [tk Tables.pit_Literal p v; tk Tables.pit_RightDelim p1 v1; tk Tables.pit_Text pb body;
+           tk Tables.pit_LeftDelim p2 v2; tk Tables.pit_LiteralEnd p3 v3; tk Tables.pit_RightDelim p4 v4] rest ->
+  exists s', begin_tag inlen lexq unq pexpr efuel pe w lf s = Parser.COk (Some (NRawText pb (literal_text body))) s' /\
+             reads s' [] rest /\ same_names s s'.
+Proof. exact ScopeText.literal_tag. Qed.
+Print Assumptions literal_tag.
+
+(* a run of text tokens (the first one just read), followed by any other token: one raw-text node holding the
+   concatenation normalised by C15's line-joining rule (with NUL as a third tight joiner, see
+   C15_rawtext_run_general), trimmed at the end when a comment follows; nothing when that is empty;
+   the token after the run is backed up *)
+Theorem text_run_node : forall inlen lexq unq pexpr efuel pe w lf until s p0 v0 more nx rest,
+  (length more + 1 < lf)%nat -> one_of Tables.pit_Text until = false ->
+  reads s (text_toks more ++ [nx]) rest -> tis nx Tables.pit_Text = false ->
+  let joined := normalize_with is_tight_joiner false (tis nx Tables.pit_Comment) (v0 ++ concat (map snd more)) in
+  exists s',
+    text_or_tag inlen lexq unq pexpr efuel pe w lf (tk Tables.pit_Text p0 v0) until s =
+      Parser.COk (match joined with [] => None | _ => Some (NRawText p0 joined) end, false) s' /\
+    p_peek (c_p s') = 1%nat /\ p_tok0 (c_p s') = nx /\ p_rest (c_p s') = rest /\ same_names s s'.
+Proof. exact ScopeText.text_run_node. Qed.
+Print Assumptions text_run_node.
+
+Theorem raw_text_written_exactly : forall cf f p t st,
+  good st -> bufs st = [] ->
+  exists st', walk cf (S f) (NRawText p t) st = (Ok VUndef, st') /\ out st' = t :: out st /\
+              bufs st' = [] /\ ctx st' = ctx st /\ mode st' = mode st.
+Proof. exact ScopeText.rawtext_written_exactly. Qed.
+Print Assumptions raw_text_written_exactly.
+
+(* ------------------------------------------------------------------ *)
 (* non-vacuity: a bundle with a let that shadows a param inside an {if},
    data="all" from under that let, a foreach whose variable shadows the same
    param, a call with an explicit param computed from index($a).
@@ -309,3 +367,14 @@ Example C02_example_registry :
     option_map (fun t => (t_ns_autoescape t, t_params t, t_node t)) (find_template (r_templates (cr_reg r)) (b "x.y.c.t1")) =
     Some (2, [(ex_a, false)], NTemplate 0 (b "x.y.c.t1") (NList 0 [NPrint 0 ex_ref []]) 0 false).
 Proof. eexists. split; vm_compute; reflexivity. Qed.
+
+(* text level: {lb}, then {literal} a<LF>  // b {/literal}: the brace, and the body untouched *)
+Example C02_example_text_tags :
+  exists s1 s2,
+    begin_tag 100 (fun _ => []) (fun _ => None) (fun _ _ _ => PFuel) (fun _ => 0%nat) (fun _ _ => CFuel) (fun _ _ => CFuel) 5
+      (cst_init [tk 84 1 (b "lb"); tk 4 3 (b "}")]) = Parser.COk (Some (NRawText 1 (b "{"))) s1 /\
+    begin_tag 100 (fun _ => []) (fun _ => None) (fun _ _ _ => PFuel) (fun _ => 0%nat) (fun _ _ => CFuel) (fun _ _ => CFuel) 5
+      (cst_init [tk 68 1 (b "literal"); tk 4 8 (b "}"); tk 6 9 (b "a" ++ [10] ++ b "  // b "); tk 3 20 (b "{");
+                 tk 94 21 (b "/literal"); tk 4 29 (b "}")]) =
+      Parser.COk (Some (NRawText 9 (b "a" ++ [10] ++ b "  // b "))) s2.
+Proof. eexists. eexists. split; vm_compute; reflexivity. Qed.
